@@ -14,9 +14,12 @@ LEAN_PROPS = "PysamlModel.Props.C08"
 MODEL_TARGETS = ["PysamlModel.Model.Routing", "PysamlModel.Spec.C08"]
 AUDIT = "PysamlModel/Audit/C08.lean"
 DRIVER = "Drivers/C08.lean"
-CORRESPONDENCE = "Drivers/C08.lean vs Entity.pick_binding/response_args, Base._sso_location, do_logout, verify_return"
+CORRESPONDENCE = ("Drivers/C08.lean vs Entity.pick_binding/response_args (all request classes, IdP and SP), Base._sso_location/"
+                  "sso_location (with/without entity id), create_ecp_authn_request, do_logout, verify_return, "
+                  "Entity.reload_metadata histories over six metadata configuration forms")
 RULE = ("random metadata (1-4 endpoints per service/binding, 1-3 requesters) x requests with URL/index/"
         "ProtocolBinding drawn from registered / other-binding / other-SP / unregistered / look-alike; "
+        "request classes x entity roles; histories (look-up / source change / reload) x metadata configuration forms; "
         "non-trivial = case not refused for an unknown entity; distinct = distinct case JSON")
 TRUSTED = [
     "metadata XML -> mdstore dictionaries (saml2.mdstore/mdie) is exercised, not modelled",
@@ -102,6 +105,213 @@ def eps_of(entity, role, svc):
     return out
 
 
+SVC_KEYS = {"acs": "assertion_consumer_service", "slo": "single_logout_service", "mni": "manage_name_id_service",
+            "attr_cs": "attribute_consuming_service", "sso": "single_sign_on_service"}
+KINDS = ["authn", "logout", "attr_query", "manage_nameid", "soap_only:AssertionIDRequest", "soap_only:ArtifactResolve",
+         "soap_only:NameIDMappingRequest", "unsupported"]
+FORMS = ["local", "local_dir", "inline", "class_file", "class_dir", "class_inmem"]
+
+
+def enrich(rng, ent):
+    """Round 5: ManageNameID services on both roles, attribute consuming services, a SOAP (ECP) sign-on endpoint."""
+    k = re.search(r"(?:sp|idp)(\d+)\.", ent["entity_id"]).group(1)
+    for role, host in (("spsso", "sp"), ("idpsso", "idp")):
+        if role in ent:
+            mni = []
+            for i in range(rng.randint(0, 3)):
+                b = rng.choice([S.BINDING_POST, S.BINDING_REDIRECT, S.BINDING_SOAP])
+                rl = "https://%s%s.c08.example/mni-resp/%d" % (host, k, i) if rng.random() < 0.3 else None
+                mni.append((b, "https://%s%s.c08.example/mni/%d" % (host, k, i), rl))
+            ent[role]["mni"] = mni
+    if "spsso" in ent and rng.random() < 0.4:
+        ent["spsso"]["attr_cs"] = [[{"name": "urn:oid:2.5.4.4"}]]
+    if "idpsso" in ent and rng.random() < 0.5:
+        ent["idpsso"]["sso"] = list(ent["idpsso"]["sso"]) + [(S.BINDING_SOAP, "https://idp%s.c08.example/ecp" % k)]
+    return ent
+
+
+def tables_of(ent):
+    """Endpoint lists per descriptor and service, from the harness's own metadata specification. AttributeConsumingService
+    elements carry neither Binding nor Location: nothing of them can ever be eligible (empty list)."""
+    if ent is None:
+        return None
+    t = {"spsso": None, "idpsso": None}
+    if "spsso" in ent:
+        t["spsso"] = {"acs": eps_of(ent, "spsso", "acs"), "slo": eps_of(ent, "spsso", "slo"),
+                      "mni": eps_of(ent, "spsso", "mni"), "attr_cs": []}
+    if "idpsso" in ent:
+        t["idpsso"] = {"sso": eps_of(ent, "idpsso", "sso"), "slo": eps_of(ent, "idpsso", "slo"),
+                       "mni": eps_of(ent, "idpsso", "mni")}
+    return t
+
+
+def pref_by_svc(pref):
+    return {k: list(pref.get(v, [])) for k, v in SVC_KEYS.items()}
+
+
+def gen_authn_fields(rng, acs, all_acs):
+    c = rng.randrange(8)
+    if c == 0 or not acs:
+        url = None
+    elif c in (1, 2, 3):
+        url = rng.choice(acs)[1]
+    elif c == 4:
+        url = rng.choice(all_acs)
+    elif c == 5:
+        url = "https://evil.example/acs"
+    elif c == 6:
+        url = lookalikes(rng, rng.choice(acs)[1])
+    else:
+        url = ""
+    c = rng.randrange(6)
+    index = None if c < 2 or not acs else rng.choice(acs)[2] if c < 4 else rng.choice(["99", "abc", "", "-1", "00"])
+    c = rng.randrange(6)
+    pb = None if c < 2 or not acs else rng.choice(acs)[0] if c < 4 else rng.choice(B + ["urn:bogus:binding", ""])
+    return url, index, pb
+
+
+def gen_rargs(rng, side, ents, others, pref, pref_cfg):
+    """response_args for every request class, on an IdP (`ents` = SPs it knows) or on an SP (`ents` = IdPs it knows);
+    `others` = entities of the metadata that have only the other role."""
+    md = {"sps" if side == "idp" else "idps": ents + others, "pref": pref_cfg}
+    c = rng.randrange(12)
+    ent = None if c == 0 else rng.choice(others) if (c == 1 and others) else rng.choice(ents)
+    kind = rng.choice(KINDS)
+    acs = (ent or {}).get("spsso", {}).get("acs", [])
+    url = index = pb = None
+    if kind == "authn":
+        url, index, pb = gen_authn_fields(rng, acs, [ep[1] for e in ents + others for ep in e.get("spsso", {}).get("acs", [])])
+        barg = [] if rng.random() < 0.5 else rng.sample(B, rng.randint(1, 3))
+    elif kind.startswith("soap_only") or kind == "unsupported":
+        barg = rng.choice([[], [S.BINDING_SOAP], rng.sample(B, rng.randint(1, 3))])
+    else:  # bindings=None raises AttributeError for request classes without ProtocolBinding (robustness quirk, see design)
+        b3 = [S.BINDING_POST, S.BINDING_REDIRECT, S.BINDING_SOAP]
+        barg = rng.choice([[S.BINDING_SOAP], rng.sample(B, rng.randint(1, 3)), rng.sample(b3, rng.randint(1, 3)),
+                           rng.sample(b3, rng.randint(2, 3)), rng.sample(b3[:2], rng.randint(1, 2))])
+    return {"op": "rargs", "side": side, "kind": kind, "md": md,
+            "entity": ent["entity_id"] if ent else "https://unknown.c08.example/x", "tables": tables_of(ent),
+            "bindings_arg": barg, "protocol_binding": pb, "preferred": pref_by_svc(pref), "url": url, "index": index}
+
+
+def gen_pickdirect(rng, side, ents, others, pref, pref_cfg):
+    md = {"sps" if side == "idp" else "idps": ents + others, "pref": pref_cfg}
+    c = rng.randrange(10)
+    ent = None if c == 0 else rng.choice(others) if (c == 1 and others) else rng.choice(ents)
+    if side == "sp" and rng.random() < 0.5:
+        # the one caller inside the library: ECP sign-on (SOAP unless the caller names another binding)
+        b = rng.choice([None, None, S.BINDING_SOAP, S.BINDING_POST, S.BINDING_PAOS])
+        return {"op": "pickdirect", "side": side, "via": "ecp", "service": "sso", "md": md,
+                "entity": ent["entity_id"] if ent else "https://unknown.c08.example/x", "tables": tables_of(ent),
+                "binding": b, "bindings_arg": [b or S.BINDING_SOAP], "preferred": pref_by_svc(pref)}
+    svc = rng.choice(["acs", "slo", "mni"] if side == "idp" else ["sso", "slo", "mni"])
+    barg = [] if rng.random() < 0.3 else rng.sample(B, rng.randint(1, 3))
+    return {"op": "pickdirect", "side": side, "via": "pick_binding", "service": svc, "md": md,
+            "entity": ent["entity_id"] if ent else "https://unknown.c08.example/x", "tables": tables_of(ent),
+            "bindings_arg": barg, "preferred": pref_by_svc(pref)}
+
+
+def gen_sso_any(rng, idps, sp_only):
+    """_sso_location / sso_location / prepare_for_authenticate with no (or an empty) entity id, over metadata holding
+    none, one or several identity providers (and possibly entities that are service providers only)."""
+    c = rng.randrange(6)
+    chosen = [] if c == 0 else idps[:1] if c < 4 else idps[:]
+    mdl = chosen + ([sp_only] if rng.random() < 0.5 or not chosen else [])
+    ent = rng.choice([None, None, "", rng.choice(mdl)["entity_id"]])
+    named = next((e for e in mdl if e["entity_id"] == ent), None) if ent else None
+    return {"op": "sso_any", "md": {"idps": mdl}, "entity": ent,
+            "eps": eps_of(named, "idpsso", "sso") if named is not None and "idpsso" in named else None,
+            "idps_eps": [eps_of(e, "idpsso", "sso") for e in mdl if "idpsso" in e],
+            "binding": rng.choice([S.BINDING_POST, S.BINDING_REDIRECT, S.BINDING_REDIRECT, S.BINDING_ARTIFACT, S.BINDING_SOAP]),
+            "via": rng.choice(["_sso_location", "sso_location", "prepare_for_authenticate"])}
+
+
+def mutate_entity(rng, ent, v):
+    """A later version of the same entity's metadata: endpoints moved, dropped, added, re-bound."""
+    import copy
+    e = copy.deepcopy(ent)
+    for role in ("spsso", "idpsso"):
+        for svc in ("acs", "slo", "sso", "mni"):
+            eps = e.get(role, {}).get(svc)
+            if not eps:
+                continue
+            out = []
+            for ep in eps:
+                c = rng.randrange(6)
+                ep = list(ep)
+                if c == 0 and (len(eps) > 1 or svc in ("slo", "mni")):
+                    continue  # dropped
+                if c in (1, 2):
+                    ep[1] = ep[1].replace(".c08.example/", ".c08.example/v%d/" % v)  # moved
+                elif c == 3:
+                    ep[0] = rng.choice([S.BINDING_POST, S.BINDING_REDIRECT])  # re-bound
+                out.append(tuple(ep))
+            if not out:
+                out = [tuple(eps[0])]
+            e[role][svc] = out
+    return e
+
+
+def gen_hist(rng, side, ents, pref, pref_cfg):
+    """One long-lived entity: look-ups, changes of the metadata source (new version / unreadable), reloads, in random
+    order, for every form the metadata configuration may take."""
+    nv = rng.randint(2, 3)
+    versions = [ents]
+    for v in range(1, nv):
+        prev = versions[-1]
+        nxt = [mutate_entity(rng, e, v) for e in prev]
+        if len(nxt) > 1 and rng.random() < 0.25:
+            nxt = nxt[1:]  # an entity leaves the federation
+        versions.append(nxt)
+    form = rng.choice(FORMS)
+    target = rng.choice(ents)
+    eid = target["entity_id"]
+
+    def at(v):
+        return next((e for e in versions[v] if e["entity_id"] == eid), None)
+
+    def ask():
+        if side == "idp":
+            if rng.random() < 0.75:
+                acs0 = [ep for v in range(nv) if at(v) for ep in at(v)["spsso"]["acs"]]
+                url, index, pb = gen_authn_fields(rng, acs0, [ep[1] for ep in acs0])
+                return {"op": "pick", "service": "assertion_consumer_service",
+                        "preferred": list(pref["assertion_consumer_service"]), "entity": eid,
+                        "eps_v": [eps_of(at(v), "spsso", "acs") if at(v) else None for v in range(nv)],
+                        "url": url, "index": index, "protocol_binding": pb,
+                        "bindings_arg": [] if rng.random() < 0.6 else rng.sample(B, rng.randint(1, 3))}
+            return {"op": "pick", "service": "single_logout_service", "preferred": list(pref["single_logout_service"]),
+                    "entity": eid, "eps_v": [eps_of(at(v), "spsso", "slo") if at(v) else None for v in range(nv)],
+                    "url": None, "index": None, "protocol_binding": None,
+                    "bindings_arg": rng.sample([S.BINDING_POST, S.BINDING_REDIRECT, S.BINDING_SOAP], rng.randint(1, 3))}
+        if rng.random() < 0.6:
+            return {"op": "sso", "entity": eid, "binding": rng.choice([S.BINDING_POST, S.BINDING_REDIRECT, S.BINDING_ARTIFACT]),
+                    "eps_v": [eps_of(at(v), "idpsso", "sso") if at(v) else None for v in range(nv)],
+                    "via": rng.choice(["_sso_location", "prepare_for_authenticate"])}
+        return {"op": "negotiate", "entity": eid, "binding": None, "to_try": [S.BINDING_REDIRECT, S.BINDING_POST],
+                "eps_v": [eps_of(at(v), "idpsso", "sso") if at(v) else None for v in range(nv)]}
+
+    pool = [ask() for _ in range(rng.randint(1, 3))]  # few distinct look-ups, repeated along the history
+    steps, cur = [], 0
+    for _ in range(rng.randint(3, 9)):
+        c = rng.randrange(10)
+        if c < 5:
+            steps.append({"t": "ask", "q": rng.choice(pool)})
+        elif c < 7:
+            nxt = rng.choice([v for v in range(nv) if v != cur] + [None] * (1 if rng.random() < 0.3 else 0))
+            steps.append({"t": "write", "v": nxt})
+            cur = nxt if nxt is not None else cur
+        else:
+            steps.append({"t": "reload"})
+    steps.append({"t": "ask", "q": rng.choice(pool)})
+    return {"op": "hist", "side": side, "form": form, "init": 0, "versions": versions, "pref": pref_cfg, "steps": steps}
+
+
+def random_r5(rng, pref, pref_cfg):
+    return {"sps": [enrich(rng, gen_sp_entity(rng, k)) for k in range(rng.randint(1, 3))],
+            "idps": [enrich(rng, gen_idp_entity(rng, k)) for k in range(rng.randint(1, 3))],
+            "sp_only": enrich(rng, gen_sp_entity(rng, 8)), "idp_only": enrich(rng, gen_idp_entity(rng, 9))}
+
+
 def gen_cases(rng, tier):
     n_md = 12 if tier == "quick" else 80
     per = 60 if tier == "quick" else 150
@@ -130,12 +340,33 @@ def gen_cases(rng, tier):
         pref_cfg = None
         if rng.random() < 0.5:
             pref_cfg = {"assertion_consumer_service": rng.sample(B[:4], rng.randint(1, 3)),
-                        "single_logout_service": rng.sample([S.BINDING_POST, S.BINDING_REDIRECT, S.BINDING_SOAP], rng.randint(1, 3))}
+                        "single_logout_service": rng.sample([S.BINDING_POST, S.BINDING_REDIRECT, S.BINDING_SOAP], rng.randint(1, 3)),
+                        # a configured table REPLACES the default one (a service left out raises KeyError): configure all
+                        "manage_name_id_service": rng.sample([S.BINDING_POST, S.BINDING_REDIRECT, S.BINDING_SOAP], rng.randint(1, 3)),
+                        "single_sign_on_service": rng.sample([S.BINDING_POST, S.BINDING_REDIRECT, S.BINDING_ARTIFACT, S.BINDING_SOAP], rng.randint(1, 3)),
+                        "attribute_consuming_service": rng.sample(B[:3], rng.randint(1, 2))}
         pref = dict(PREFERRED_BINDING)
         pref.update(pref_cfg or {})
         sps = [gen_sp_entity(rng, k) for k in range(rng.randint(1, 3))]
         idps = [gen_idp_entity(rng, k) for k in range(rng.randint(1, 3))]
         all_acs = [ep[1] for e in sps for ep in e["spsso"]["acs"]]
+        # round 5: request classes x entity roles, pick_binding without descriptor type, no entity id, histories
+        r5 = random_r5(rng, pref, pref_cfg)
+        for _ in range(40 if tier == "quick" else 120):
+            c = rng.randrange(10)
+            if c < 4:
+                side = rng.choice(["idp", "sp"])
+                yield gen_rargs(rng, side, r5["sps"] if side == "idp" else r5["idps"],
+                                [r5["idp_only"]] if side == "idp" else [r5["sp_only"]], pref, pref_cfg)
+            elif c < 6:
+                side = rng.choice(["idp", "sp"])
+                yield gen_pickdirect(rng, side, r5["sps"] if side == "idp" else r5["idps"],
+                                     [r5["idp_only"]] if side == "idp" else [r5["sp_only"]], pref, pref_cfg)
+            elif c < 7:
+                yield gen_sso_any(rng, r5["idps"], r5["sp_only"])
+            else:
+                side = rng.choice(["idp", "sp"])
+                yield gen_hist(rng, side, r5["sps"] if side == "idp" else r5["idps"], pref, pref_cfg)
         # transport of back-channel logout under every transport configuration
         for ent in idps:
             if any(ep[0] == S.BINDING_SOAP for ep in ent["idpsso"]["slo"]):
@@ -242,7 +473,8 @@ def gen_cases(rng, tier):
 def _idp(md):
     key = ("idp", repr(md))
     if key not in _state:
-        _state.clear()
+        if len(_state) > 6:
+            _state.clear()
         extra = {"preferred_binding": md["pref"]} if md.get("pref") else {}
         _state[key] = S.make_idp(S.idp_config(sp_entities=md["sps"], **extra))
     return _state[key]
@@ -251,7 +483,8 @@ def _idp(md):
 def _sp(md):
     key = ("sp", repr(md))
     if key not in _state:
-        _state.clear()
+        if len(_state) > 6:
+            _state.clear()
         extra = {"preferred_binding": md["pref"]} if md.get("pref") else {}
         _state[key] = S.make_sp(S.sp_config(idp_entities=md["idps"], **extra))
     return _state[key]
@@ -260,7 +493,8 @@ def _sp(md):
 def _disco(md):
     key = ("disco", repr(md))
     if key not in _state:
-        _state.clear()
+        if len(_state) > 6:
+            _state.clear()
         from saml2.config import Config
         from saml2.discovery import DiscoveryServer
 
@@ -276,43 +510,19 @@ def run_impl(case):
 
     op = case["op"]
     if op == "pick":
-        idp = _idp(case["md"])
-        issuer = saml.Issuer(text=case["entity"])
-        if case["service"] == "assertion_consumer_service":
-            req = samlp.AuthnRequest(id="id-1", issuer=issuer,
-                                     assertion_consumer_service_url=case["url"],
-                                     assertion_consumer_service_index=case["index"],
-                                     protocol_binding=case["protocol_binding"])
-        else:
-            req = samlp.LogoutRequest(id="id-1", issuer=issuer)
-        try:
-            info = idp.response_args(req, bindings=case["bindings_arg"] or None)
-        except Exception as e:
-            return {"r": "refused"}
-        if info.get("destination") is None:
-            return {"r": "ok", "binding": info["binding"], "dest": None}
-        return {"r": "ok", "binding": info["binding"], "dest": info["destination"]}
+        return _do_pick(_idp(case["md"]), case)
     if op == "sso":
-        sp = _sp(case["md"])
-        try:
-            if case["via"] == "_sso_location":
-                d = sp._sso_location(case["entity"], case["binding"])
-            else:
-                with S.clock(S.NOW0):
-                    rid, info = sp.prepare_for_authenticate(case["entity"], binding=case["binding"], sign=False)
-                d = _dest_of(info, case["binding"])
-        except Exception:
-            return {"dest": None}
-        return {"dest": d}
+        return _do_sso(_sp(case["md"]), case)
     if op == "negotiate":
-        sp = _sp(case["md"])
-        try:
-            with S.clock(S.NOW0):
-                rid, b, info = sp.prepare_for_negotiated_authenticate(case["entity"], binding=case["binding"], sign=False)
-            d = _dest_of(info, b)
-        except Exception:
-            return {"r": "refused"}
-        return {"r": "ok", "binding": b, "dest": d}
+        return _do_negotiate(_sp(case["md"]), case)
+    if op == "rargs":
+        return _do_rargs(_idp(case["md"]) if case["side"] == "idp" else _sp(case["md"]), case)
+    if op == "pickdirect":
+        return _do_pickdirect(case)
+    if op == "sso_any":
+        return _do_sso(_sp(case["md"]), case)
+    if op == "hist":
+        return _do_hist(case)
     if op == "slo_transport":
         # back-channel (SOAP) logout is the one case in which the library itself transmits: observe the HTTP call it makes
         # (URL and whether redirects would be followed) for several transport configurations
@@ -409,6 +619,170 @@ def run_impl(case):
     raise ValueError(op)
 
 
+def _do_pick(idp, case):
+    from saml2 import saml, samlp
+
+    issuer = saml.Issuer(text=case["entity"])
+    if case["service"] == "assertion_consumer_service":
+        req = samlp.AuthnRequest(id="id-1", issuer=issuer,
+                                 assertion_consumer_service_url=case["url"],
+                                 assertion_consumer_service_index=case["index"],
+                                 protocol_binding=case["protocol_binding"])
+    else:
+        req = samlp.LogoutRequest(id="id-1", issuer=issuer)
+    try:
+        info = idp.response_args(req, bindings=case["bindings_arg"] or None)
+    except Exception as e:
+        return {"r": "refused"}
+    if info.get("destination") is None:
+        return {"r": "ok", "binding": info["binding"], "dest": None}
+    return {"r": "ok", "binding": info["binding"], "dest": info["destination"]}
+
+
+def _do_sso(sp, case):
+    try:
+        if case["via"] == "_sso_location":
+            d = sp._sso_location(case["entity"], case["binding"])
+        elif case["via"] == "sso_location":
+            d = sp.sso_location(case["entity"], case["binding"])
+        else:
+            with S.clock(S.NOW0):
+                rid, info = sp.prepare_for_authenticate(case["entity"], binding=case["binding"], sign=False)
+            d = _dest_of(info, case["binding"])
+    except Exception:
+        return {"dest": None}
+    return {"dest": d}
+
+
+def _do_negotiate(sp, case):
+    try:
+        with S.clock(S.NOW0):
+            rid, b, info = sp.prepare_for_negotiated_authenticate(case["entity"], binding=case["binding"], sign=False)
+        d = _dest_of(info, b)
+    except Exception:
+        return {"r": "refused"}
+    return {"r": "ok", "binding": b, "dest": d}
+
+
+def _request_of(case):
+    from saml2 import saml, samlp
+
+    issuer = saml.Issuer(text=case["entity"])
+    kind = case["kind"]
+    if kind == "authn":
+        return samlp.AuthnRequest(id="id-1", issuer=issuer, assertion_consumer_service_url=case["url"],
+                                  assertion_consumer_service_index=case["index"], protocol_binding=case["protocol_binding"])
+    if kind == "logout":
+        return samlp.LogoutRequest(id="id-1", issuer=issuer)
+    if kind == "attr_query":
+        return samlp.AttributeQuery(id="id-1", issuer=issuer)
+    if kind == "manage_nameid":
+        return samlp.ManageNameIDRequest(id="id-1", issuer=issuer)
+    if kind.startswith("soap_only:"):
+        return getattr(samlp, kind.split(":")[1])(id="id-1", issuer=issuer)
+    return samlp.AuthzDecisionQuery(id="id-1", issuer=issuer)
+
+
+def _do_rargs(ent, case):
+    req = _request_of(case)
+    try:
+        info = ent.response_args(req, bindings=case["bindings_arg"] or None)
+    except Exception:  # SAMLError / UnknownSystemEntity / KeyError on AttributeConsumingService entries: no answer is addressed
+        return {"r": "refused"}
+    if "binding" not in info and "destination" not in info:
+        return {"r": "nodest"}
+    return {"r": "ok", "binding": info.get("binding"), "dest": info.get("destination")}
+
+
+def _sp_paos(md):
+    key = ("sp_paos", repr(md))
+    if key not in _state:
+        if len(_state) > 6:
+            _state.clear()
+        extra = {"preferred_binding": md["pref"]} if md.get("pref") else {}
+        ep = {"endpoints": {"assertion_consumer_service": [(S.SP_ACS_POST, S.BINDING_POST),
+                                                           ("https://sp.c08.example/paos", S.BINDING_PAOS)]}}
+        _state[key] = S.make_sp(S.sp_config(idp_entities=md["idps"], sp=ep, **extra))
+    return _state[key]
+
+
+def _do_pickdirect(case):
+    if case["via"] == "ecp":
+        sp = _sp_paos(case["md"])
+        kw = {"binding": case["binding"]} if case["binding"] else {}
+        try:
+            with S.clock(S.NOW0):
+                rid, env = sp.create_ecp_authn_request(case["entity"], "rs", sign=False, **kw)
+        except Exception:
+            return {"r": "refused"}
+        import html
+        m = re.search(r'<[^<>]*AuthnRequest[^<>]* Destination="([^"]*)"', env)
+        return {"r": "ok", "binding": case["bindings_arg"][0], "dest": html.unescape(m.group(1)) if m else None}
+    ent = _idp(case["md"]) if case["side"] == "idp" else _sp(case["md"])
+    try:
+        b, d = ent.pick_binding(SVC_KEYS[case["service"]], case["bindings_arg"] or None, entity_id=case["entity"])
+    except Exception:
+        return {"r": "refused"}
+    return {"r": "ok", "binding": b, "dest": d}
+
+
+def _md_conf(form, workdir, xml):
+    """The metadata configuration of `form` for the source content `xml` (files are (re)written in place)."""
+    import os
+
+    f = os.path.join(workdir, "md.xml")
+    d = os.path.join(workdir, "dir")
+    os.makedirs(d, exist_ok=True)
+
+    def w(path):
+        with open(path, "w") as fp:
+            fp.write(xml)
+        return path
+
+    if form == "local":
+        return {"local": [w(f)]}
+    if form == "local_dir":
+        w(os.path.join(d, "a.xml"))
+        return {"local": [d]}
+    if form == "inline":
+        return {"inline": [xml]}
+    if form == "class_file":
+        return [{"class": "saml2.mdstore.MetaDataFile", "metadata": [(w(f),)]}]
+    if form == "class_dir":
+        w(os.path.join(d, "a.xml"))
+        return [{"class": "saml2.mdstore.MetaDataFile", "metadata": [(d,)]}]
+    if form == "class_inmem":
+        return [{"class": "saml2.mdstore.InMemoryMetaData", "metadata": [(xml,)]}]
+    raise ValueError(form)
+
+
+def _do_hist(case):
+    import shutil
+    import tempfile
+
+    workdir = tempfile.mkdtemp(prefix="c08hist")
+    try:
+        xml = [S.metadata_xml(v) for v in case["versions"]]
+        extra = {"preferred_binding": case["pref"]} if case.get("pref") else {}
+        conf = _md_conf(case["form"], workdir, xml[case["init"]])
+        if case["side"] == "idp":
+            ent = S.make_idp(S.idp_config(sp_entities=case["versions"][0], metadata=conf, **extra))
+        else:
+            ent = S.make_sp(S.sp_config(idp_entities=case["versions"][0], metadata=conf, **extra))
+        outs = []
+        for st in case["steps"]:
+            if st["t"] == "write":
+                conf = _md_conf(case["form"], workdir, xml[st["v"]] if st["v"] is not None else "<md:EntitiesDescriptor")
+            elif st["t"] == "reload":
+                outs.append({"reloaded": bool(ent.reload_metadata(conf))})
+            else:
+                q = st["q"]
+                outs.append(_do_pick(ent, q) if q["op"] == "pick" else _do_sso(ent, q) if q["op"] == "sso" else _do_negotiate(ent, q))
+        return {"outs": outs}
+    finally:
+        shutil.rmtree(workdir, ignore_errors=True)
+
+
 def _dest_of(info, binding):
     """Where the browser / HTTP client is sent, read back from the prepared request."""
     if info.get("method") == "GET" or binding in (S.BINDING_REDIRECT, S.BINDING_ARTIFACT):
@@ -438,6 +812,13 @@ def finding_key(case, impl, lean):
 
 
 def shrink(case):
+    if case.get("op") == "hist":
+        for i in range(len(case["steps"])):
+            c = dict(case)
+            c["steps"] = case["steps"][:i] + case["steps"][i + 1:]
+            if any(st["t"] == "ask" for st in c["steps"]):
+                yield c
+        return
     for k in ("url", "index", "protocol_binding"):
         if case.get(k) is not None:
             c = dict(case)
